@@ -9,7 +9,10 @@ checks = []
 for pid in props:
     if pid not in CHECKS:
         continue
-    c = CHECKS[pid]
+    c = dict(CHECKS[pid])
+    if os.path.exists(os.path.join(HERE, "docs", "audit", pid + ".md")):
+        # the generator audit widened the input domains after these texts were written
+        c["text"] = c["text"] + " Input domains widened dimension by dimension against the quantifier (argument types, defaults, numbering, object kinds, operations on results): table with class counts in docs/audit/%s.md." % pid
     checks.append({
         "property_id": pid,
         "quick_cmd": "./check %s quick" % pid,
